@@ -67,6 +67,7 @@ def run_config(chk, tier, cfgname):
             c16.check_impl(chk, prog, im, cfgname)
     chk.floor("collector-own-collect-impls", own, 3)
     allocation_state(chk, prog, cfgname)
+    initial_collector_state(chk, prog, T, cfgname)
     # the event "value traced" of the mark_one table is GcPtr::trace_value: it must forward to the vtable's
     # trace slot, whose closure calls Collect::trace of the allocated type, on every path
     from gcv import rules_prims
@@ -130,3 +131,43 @@ def allocation_state(chk, prog, c):
                  detail="; ".join(probs) + ": an object of a pointer-holding type flagged needs-trace = false is blackened "
                         "without being traced" if probs else "", loc="%s:%s" % (e.file, e.line),
                  sample={"allocator": e.caller, "flag_sites": len(sets)})
+
+
+def initial_collector_state(chk, prog, T, c):
+    """The protocol exploration starts from abstract entry states; a *new* arena must be one of the clean ones:
+    Context::new, interpreted from its MIR, returns (phase Sleep, empty list, no cursor, both queues empty, root
+    flagged for tracing). With the root flag clear the first cycle would mark nothing and sweep everything."""
+    from gcv import interp as _interp, gcmodel
+    from gcv.interp import State
+    fn = "context::Context::new"
+    if not chk.anchor(fn, fn in prog.seed_n, "(config %s)" % c):
+        return
+    m = T.m
+    old = m.ip.lenient_std
+    m.ip.lenient_std = True
+    probs = []
+    try:
+        outs = [o for o in m.ip.run(prog.seed_n[fn][0], [], State()) if o.kind == "return"]
+        if not outs:
+            probs.append("no normal outcome")
+        for o in outs:      # several under the `tracing` feature (opaque logging calls fork); all must be clean
+            v = o.value
+            get = lambda name: v[3][m.ctx_fields.index(name)]
+            if gcmodel.phase_name(prog, get("phase")) != "Sleep":
+                probs.append("phase %s" % gcmodel.phase_name(prog, get("phase")))
+            for f in ("all", "sweep", "sweep_prev"):
+                x = get(f)
+                if not (x[0] == "adt" and x[2] == 0):
+                    probs.append("%s is not None" % f)
+            if get("root_needs_trace") != ("i", 1):
+                probs.append("root_needs_trace is %s: the first cycle would not trace the root" % (get("root_needs_trace"),))
+            for q in ("gray", "gray_again"):
+                x = get(q)
+                if not (x[0] == "adt" and x[3] and x[3][0] == ("vec", ())):
+                    probs.append("queue %s not empty" % q)
+    except (_interp.Unmodelled, _interp.InterpError, ValueError) as e:
+        probs.append("could not be analysed: %s" % e)
+    finally:
+        m.ip.lenient_std = old
+    chk.inst("initial-collector-state", "%s[%s]" % (fn, c), not probs,
+             detail="a new arena does not start in the clean sleeping state: " + "; ".join(probs))
